@@ -127,6 +127,9 @@ print("@@JSON " + json.dumps(out))
 
 PY_KEYWORDS = set("False None True and as assert async await break class continue def del elif else except finally for from "
                   "global if import in is lambda nonlocal not or pass raise return try while with yield".split())
+# identifiers the generated module cannot survive verbatim: keywords (SyntaxError) and `property` (a TYPE of that name
+# becomes `class property(...)`, after which every `@property` in the module calls that class)
+PY_HARD = PY_KEYWORDS | {"property"}
 PY_BUILTINS = set("id object dict tuple str len range super property print int float bool list set type".split())
 
 
@@ -153,6 +156,31 @@ def linearizable(sch, ent):
         cache[n] = c
         return c
     return build(ent) is not None
+
+
+def chain_len(sch, n):
+    sup = sch.ent(n)["supers"]
+    return max([1 + chain_len(sch, s) for s in sup] + [0])
+
+
+def reordered(sch, n):
+    """exp2python sorts the supertypes by the length of their longest supertype chain, longest first (stable)."""
+    c = [chain_len(sch, s) for s in sch.ent(n)["supers"]]
+    return any(c[i] < c[i + 1] for i in range(len(c) - 1))
+
+
+def reordered_closure(sch, n):
+    return any(reordered(sch, x) for x in [n.lower()] + sch.ancestors(n))
+
+
+def has_diamond(sch, n):
+    seen = set()
+    for sp in sch.ent(n)["supers"]:
+        a = set([sp.lower()] + sch.ancestors(sp))
+        if a & seen:
+            return True
+        seen |= a
+    return False
 
 
 def same(pyname, ident):
@@ -226,12 +254,13 @@ def compare(d, defs, info):
             return len(a) == len(b) and all(same(x, y) for x, y in zip(a, b))
         if not (eq(got_names, exp_all) or eq(got_names, exp_nd)):
             kind = "ctor"
-            if len(set(exp_all)) == len(exp_all) and len(got_names) > len(exp_all):
-                dup = [x for x in got_names if got_names.count(x) > 1]
-                if dup:
-                    kind = "ctor-repeated-inherited-attribute"
-                elif any(s["redeclared_by"] and not s["derived"] for s in slots):
-                    kind = "ctor-extra-parameter-for-redeclared-attribute"
+            closure = [name.lower()] + sch.ancestors(name)
+            if any(has_diamond(sch, x) for x in closure):
+                kind = "ctor-repeated-inherited-attribute"
+            elif any(a.get("redecl") for x in closure for a in sch.ent(x)["attrs"]):
+                kind = "ctor-extra-parameter-for-redeclared-attribute"
+            elif sorted(got_names) == sorted(exp_all) and reordered_closure(sch, name):
+                kind = "ctor-follows-reordered-bases"
             probs.append((kind, "entity %s: constructor parameters %s, Part 21 order %s" % (name.lower(), got_names, exp_all)))
     for t in d["types"]:
         name = t["name"]
@@ -374,7 +403,7 @@ def evaluate(text, d, wd, alias_ok=False):
     if rc != 0:
         msg = (o + e).strip().splitlines()
         tail = " | ".join(msg[-4:])[-400:]
-        kw = sorted(n for n in c17gen.all_identifiers(d) if n in PY_KEYWORDS)
+        kw = sorted(n for n in c17gen.all_identifiers(d) if n in PY_HARD)
         if kw:
             return done("compile", "module does not compile (schema uses the Python keyword(s) %s as identifiers): %s" % (kw, tail), SIG_KW)
         return done("compile", "module does not compile: %s" % tail)
@@ -408,10 +437,11 @@ def evaluate(text, d, wd, alias_ok=False):
     if "probe_error" in js:
         raise RuntimeError("probe script failed: " + js["probe_error"])
     if "import_error" in js:
-        kw = sorted(n for n in c17gen.all_identifiers(d) if n in PY_KEYWORDS)
-        res["probs"].append(("import", "import fails: %s | %s" % (js["import_error"], js.get("tb", "")[-300:].replace("\n", " | "))))
+        hard = sorted(n for n in c17gen.all_identifiers(d) if n in PY_HARD)
+        res["probs"].append(("import", "import fails%s: %s | %s" % ((" (schema uses %s as identifier)" % hard) if hard else "", js["import_error"],
+                                                                    js.get("tb", "")[-300:].replace("\n", " | "))))
         if res["sig"] is None:
-            res["sig"] = "import:" + re.sub(r"'[^']*'", "'X'", js["import_error"])[:50]
+            res["sig"] = SIG_KW if hard else "import:" + re.sub(r"'[^']*'", "'X'", js["import_error"])[:50]
         return res
     probs = compare(d, js["defs"], info)
     if js.get("schema_name", "").lower() != d["name"].lower():
@@ -421,6 +451,19 @@ def evaluate(text, d, wd, alias_ok=False):
         res["sig"] = probs[0][0]
     res["all_sigs"] = sorted(set(p[0] for p in probs))
     return res
+
+
+PROBE_PCT = 8
+SHAPES = [
+    (SIG_KW, "an identifier of the schema is a Python keyword (open finding)",
+     lambda d, sch: bool(c17gen.all_identifiers(d) & PY_HARD)),
+    ("ctor-repeated-inherited-attribute", "an entity inherits from the same ancestor along two paths (open finding: constructor repeats the inherited attributes)",
+     lambda d, sch: any(has_diamond(sch, e["name"]) for e in d["entities"])),
+    ("bases-order", "an entity lists a supertype with a shorter supertype chain before one with a longer chain (open finding: bases and inherited parameters re-ordered)",
+     lambda d, sch: any(reordered(sch, e["name"]) for e in d["entities"])),
+    ("ctor-extra-parameter-for-redeclared-attribute", "an entity re-declares an inherited explicit attribute (open finding: extra constructor parameter)",
+     lambda d, sch: any(a.get("redecl") for e in d["entities"] for a in e["attrs"])),
+]
 
 
 def setup():
@@ -437,7 +480,20 @@ def make_strategy(ctx):
 def case(ctx, d):
     ev = ctx.ev
     text = exprender.schema(d)
+    probe = common.sub_seed(ctx.seed, "probe", text) % 100 < PROBE_PCT
+    if SIG_KW in ctx.open_sigs and not probe and (c17gen.all_identifiers(d) & PY_HARD):
+        # open finding: Python keywords as identifiers.  Excluded by construction: rename them (x -> x_k), keep the rest
+        ids = c17gen.all_identifiers(d)
+        c17gen.rename_identifiers(d, lambda n: (n + "_k" if (n + "_k") not in ids else n + "_kk") if n in PY_HARD else n)
+        ev.exclude(SHAPES[0][1] + " - keyword identifiers renamed")
+        text = exprender.schema(d)
     sch = Schema(d)
+    for sig, reason, shape in SHAPES:
+        if sig in ctx.open_sigs and shape(d, sch):
+            if not probe:
+                ev.exclude(reason)
+                return
+            ev.bump("probe-of-open-finding:" + sig)
     r = evaluate(text, d, os.path.join(ctx.wd, "case"), alias_ok=SIG_F10 in ctx.open_sigs)
     info = r["info"]
     multi = any(len(e["supers"]) >= 2 for e in d["entities"])
